@@ -287,11 +287,21 @@ def r19_4(ctx, rr):
     rr.check(okq, "lazy:dense-error-propagated", "lazy_gaussian_elimination must propagate the error of the dense gaussian_elimination (`?`)", b.span)
     # a pivot is recorded together with its row, and the weight of the pivot is cleared
     rr.instances += 1
-    push_names = {}
-    for n in walk(b.body):
-        if n.get("k") == "MethodCall" and n["name"] == "push" and n["recv"].get("k") == "Path":
-            push_names.setdefault(n["recv"]["name"], []).append(n)
-    rr.check("pivots" in push_names and "solved" in push_names and len(push_names["pivots"]) == len(push_names["solved"]) and ps_of[id(push_names["pivots"][0])][-1] is ps_of[id(push_names["solved"][0])][-1], "lazy:pivot-recorded-with-row", "lazy_gaussian_elimination: each pivot is recorded together with the row it was solved from (two pushes in the same block)", b.span)
+    one = [n for n in walk(b.body) if n.get("k") == "If" and n["c"].get("k") == "Binary" and n["c"]["op"] == "==" and n["c"]["r"].get("k") == "Lit" and n["c"]["r"].get("v") == "1" and T.term(n["c"]["l"]) == T.term(z["c"]["l"])]
+    okp = False
+    if one:
+        blk = one[0]["th"]
+        top = blk["stmts"] + ([blk["expr"]] if "expr" in blk else [])
+        pushes = []
+        for st in top:
+            x = st
+            while x.get("k") == "Block" and not x["stmts"] and "expr" in x:
+                x = x["expr"]
+            if x.get("k") == "MethodCall" and x["name"] == "push" and x["recv"].get("k") == "Path" and x["recv"].get("res") == "local":
+                pushes.append(x)
+        # two different local vectors receive one element each in the same block: the pivot and its row
+        okp = len(pushes) == 2 and pushes[0]["recv"]["id"] != pushes[1]["recv"]["id"]
+    rr.check(okp, "lazy:pivot-recorded-with-row", "lazy_gaussian_elimination: in the `priority == 1` branch each pivot is recorded together with the row it was solved from (two pushes, onto two vectors, in the same block)", b.span)
     # final back substitution: solution[pivot] = eq.c ^ eval_vars(eq.vars, solution) with eq = equations[solved[i]], pivot = pivots[i]
     rr.instances += 1
     oka = False
